@@ -1,30 +1,45 @@
 (* C03 - NGAP messages are encoded exactly as X.691 aligned PER / TS 38.413 prescribe; values outside their
-   constraints are refused.  Statements only; proofs live in Proofs/AperEncProofs.v, Proofs/AperSchemaProofs.v.
+   constraints are refused.  Statements only; proofs live in Proofs/AperEncProofs.v, Proofs/AperSchemaProofs.v,
+   Proofs/AperBits*.v (refinement of the byte-level writer) and Proofs/AperStruct*.v (whole values).
 
    Shape of the argument (DESIGN.md C03):
    (1) every constraint that occurs in the NGAP schema (regenerated from the Go types on every check) is in a
        class on which the encoder is proved to follow X.691, except an explicit finite list       [c03_ngap_schema_supported]
    (2) the regenerated schema equals the frozen TS 38.413 transcription                          [c03_schema_is_golden]
    (3) per primitive: the model of marshal.go issues exactly the bit-writes X.691 prescribes     [c03_*_is_x691]
-   (4) refusal of a fixed-size BIT STRING of the wrong length (after fix b7bd054)                [c03_fixed_bitstring_refused]
+   (4) the byte-level writer (putBitString / putBitsValue / GetBitString with their shifts, appendAlignBits, raw
+       appends) refines appending to a bit list                                                  [c03_writer_refines_bit_list]
+   (5) OCTET STRING / BIT STRING (all supported SIZE classes)                                    [c03_octet_string_is_x691, c03_bit_string_is_x691]
+   (6) whole values, by induction on the Go type (SEQUENCE preamble + extension bit, OPTIONAL pointers, CHOICE,
+       SEQUENCE OF, open types with their reference field):                                      [c03_aper_encode_is_x691]
+         tags_to_asn1 t p = Some at -> abs t p v = Some av -> sup t p v = true -> x691 at av 0 = XOk bits ->
+         small bits -> marshal t p v = Ok (pack bits)
+       "the value conforms and is not fragmented" is the hypothesis  x691 ... = XOk bits  (XViolation = outside the
+       constraints, XOutside = a length >= 16384); [sup] (Proofs/AperStructDefs.v, decidable, value-directed) keeps the
+       value inside the constraint classes on which the library follows X.691; [small] = below 2^40 bits.
+   (7) refusal: see c03_refusal_* below.
+
+   Classes excluded by [sup] (each is a recorded deviation or has no NGAP instance; witnesses below / in AperEncProofs):
+     SIZE upper bound >= 65536 (D5), extensible size below the root (D7), lengths >= 16384 (fragmentation),
+     INTEGER: unconstrained / semi-constrained / range > 64K with lb <> 0 (D3, D4), extensible INTEGER above its root,
+     extensible SEQUENCE OF above its root [c03_ext_seqof_above_root_refuted], CHOICE with a single alternative
+     [c03_single_alternative_choice_refuted], an open type whose content encodes to zero bits (the library writes
+     length 0 where X.691 wants one zero octet), OBJECT IDENTIFIER.
 
    TODO-PARTIAL (stated in full, not proved here):
-     aper_encode_is_x691 :
-       forall t p v at av bits, tags_to_asn1 t p = Some at -> abs t p v = Some av -> supported t p ->
-         x691 at av 0 = XOk bits -> marshal t p v = Ok (pack bits)
      aper_encode_refuses :
        forall t p v at av, tags_to_asn1 t p = Some at -> abs t p v = Some av -> supported t p ->
          x691 at av 0 = XViolation -> exists e, marshal t p v = Err e
-     Missing: (a) the refinement of the byte-level writer, i.e. for a well-formed state s (bitsOffset < 8, unused low
-     bits of the last octet zero) and side conditions v < 2^n, n <= 64:  run_ops s ops = Ok s'  with
-     bits_of_est s' = bits_of_est s ++ ops_bits (length (bits_of_est s)) ops   (putBitsValue / putBitString /
-     GetBitString shift identities); (b) OCTET STRING, BIT STRING, unconstrained INTEGER and SEQUENCE OF count as
-     op-lists (the prototypes of the design round cover them at bit level); (c) the structural induction over
-     ty (SEQUENCE preamble, CHOICE, SEQUENCE OF, open type).  These parts are covered on every check by the
-     correspondence streams prim-enc and ngap-enc (implementation = model = specification, every bit offset). *)
+     What is proved of it is the per-kind refusal c03_refusal_* (INTEGER out of range, string / list of illegal size,
+     Present = 0 or too large, nil mandatory pointer, open type not matching its identifier, fixed BIT STRING of the
+     wrong length) at the primitive / encStruct level; missing is the structural lifting: that an error (rather than
+     a panic or a success) propagates out of every enclosing SEQUENCE / SEQUENCE OF / open type for the components
+     encoded before the violating one (which needs the C03.1 invariant for the preceding components plus totality of
+     the writer on arbitrary values). *)
 From Coq Require Import NArith ZArith List Bool String.
 Require Import GoSlice Bits AperCommon AperEnc AperDec Asn1 X691 Asn1Tags NgapSchema NgapGolden AperCheck X691Check
-        AperEncProofs AperSchemaProofs.
+        AperEncProofs AperSchemaProofs AperBits AperBitsGet AperBitsPut AperStructPrim AperStructStr AperStructBits
+        AperStructDefs AperStructFld AperStructMain AperStructRefuse AperStructWitness.
 Import ListNotations.
 Open Scope N_scope.
 
@@ -100,13 +115,193 @@ Theorem c03_integer_big_range_is_x691 :
 Proof. exact int_constrained_big_is_x691. Qed.
 Print Assumptions c03_integer_big_range_is_x691.
 
-(* (4) refusal: a fixed-size BIT STRING whose BitLength is not the size never reaches the wire *)
+(* (4) the byte-level writer refines the bit-list writer: on a state representing the bit list bl (octets = bits of bl
+   padded with zero bits, bitsOffset = |bl| mod 8) any list of writer operations with in-range arguments succeeds and
+   the new state represents bl ++ their bits *)
+Theorem c03_writer_refines_bit_list :
+  forall ops s bl, repr s bl -> ops_ok (List.length bl) ops -> small (bl ++ ops_bits (List.length bl) ops) ->
+    exists s', run_ops s ops = Ok s' /\ repr s' (bl ++ ops_bits (List.length bl) ops).
+Proof. exact run_ops_refines. Qed.
+Print Assumptions c03_writer_refines_bit_list.
+
+Theorem c03_putBitsValue_refines :
+  forall s bl v n, repr s bl -> n <= 64 -> v < 2 ^ n -> small (bl ++ bits_of_N (N.to_nat n) v) ->
+    exists s', putBitsValue s v n = Ok s' /\ repr s' (bl ++ bits_of_N (N.to_nat n) v).
+Proof. exact putBitsValue_repr. Qed.
+Print Assumptions c03_putBitsValue_refines.
+
+(* GetBitString returns the n bits after bit position off, left-aligned and zero-padded (used by both directions) *)
+Theorem c03_GetBitString_bits :
+  forall src off n, bok src -> off < 8 -> 1 <= n -> off + n <= 8 * len src -> len src < 17592186044416 ->
+    exists d, GetBitString src off n = Ok d /\ bok d /\ len d = (n + 7) / 8 /\
+      bits_of_bytes d = firstn (N.to_nat n) (skipn (N.to_nat off) (bits_of_bytes src)) ++ repeat false (pad_len (N.to_nat n)).
+Proof. exact GetBitString_bits. Qed.
+Print Assumptions c03_GetBitString_bits.
+
+(* the state reached is the packing of the bits written *)
+Theorem c03_repr_is_pack : forall s bl, repr s bl -> e_bytes s = pack_bits bl.
+Proof. exact repr_pack. Qed.
+Print Assumptions c03_repr_is_pack.
+
+(* (5) OCTET STRING (SIZE (lb..ub[, ...])), 0 <= lb <= ub < 65536, ub > 0: fixed size <= 2 octets / larger, constrained,
+   extensible within / above the root; and without a SIZE constraint *)
+Theorem c03_octet_string_is_x691 :
+  forall s bl bytes ext lb ub b,
+    repr s bl -> bok bytes -> (0 <= lb <= ub)%Z -> (0 < ub < 65536)%Z ->
+    (ext = true -> Z.to_N lb <= len bytes) -> len bytes < 16384 ->
+    enc_string (Z.to_N lb) (Some (Z.to_N ub)) ext (len bytes) (bits_of_bytes bytes) (Z.to_N ub <=? 2) (List.length bl) = XOk b ->
+    small (bl ++ b) ->
+    exists s', appendOctetString s bytes ext (Some lb) (Some ub) = Ok s' /\ repr s' (bl ++ b).
+Proof. exact octets_constrained_emits. Qed.
+Print Assumptions c03_octet_string_is_x691.
+
+Theorem c03_octet_string_unconstrained_is_x691 :
+  forall s bl bytes b,
+    repr s bl -> bok bytes -> len bytes < 16384 ->
+    enc_string 0 None false (len bytes) (bits_of_bytes bytes) false (List.length bl) = XOk b -> small (bl ++ b) ->
+    exists s', appendOctetString s bytes false None None = Ok s' /\ repr s' (bl ++ b).
+Proof. exact octets_unconstrained_emits. Qed.
+Print Assumptions c03_octet_string_unconstrained_is_x691.
+
+Theorem c03_bit_string_is_x691 :
+  forall s bl bytes n c ext lb ub b,
+    repr s bl -> bok bytes -> len bytes = (n + 7) / 8 -> c = firstn (N.to_nat n) (bits_of_bytes bytes) ->
+    (0 <= lb <= ub)%Z -> (0 < ub < 65536)%Z -> (ext = true -> Z.to_N lb <= n) -> n < 16384 ->
+    enc_string (Z.to_N lb) (Some (Z.to_N ub)) ext (N.of_nat (List.length c)) c (Z.to_N ub <=? 16) (List.length bl) = XOk b ->
+    small (bl ++ b) ->
+    exists s', appendBitString s bytes n ext (Some lb) (Some ub) = Ok s' /\ repr s' (bl ++ b).
+Proof. exact bits_constrained_emits. Qed.
+Print Assumptions c03_bit_string_is_x691.
+
+(* (6) C03.1: whole values *)
+Theorem c03_aper_encode_is_x691 :
+  forall t p v at' av bits,
+    tags_to_asn1 t p = Some at' -> abs t p v = Some av -> sup t p v = true ->
+    x691 at' av 0 = XOk bits -> small bits ->
+    marshal t p v = Ok (pack bits).
+Proof. exact marshal_is_x691. Qed.
+Print Assumptions c03_aper_encode_is_x691.
+
+(* instantiated for the NGAP PDU and the transfer / container roots of the regenerated schema (every root has a
+   reading as an ASN.1 type: c03_ngap_roots_have_asn1) *)
+Theorem c03_ngap_encode_is_x691 :
+  forall name t pe pd v at' av bits,
+    In (name, t, pe, pd) ngap_roots_full -> tags_to_asn1 t pe = Some at' -> abs t pe v = Some av -> sup t pe v = true ->
+    x691 at' av 0 = XOk bits -> small bits ->
+    marshal t pe v = Ok (pack bits).
+Proof. intros name t pe pd v at' av bits _. apply marshal_is_x691. Qed.
+Print Assumptions c03_ngap_encode_is_x691.
+
+Theorem c03_ngap_roots_have_asn1 :
+  forallb (fun r => let '(n, t, pe, pd) := r in match tags_to_asn1 t pe with Some _ => true | None => false end) ngap_roots_full = true.
+Proof. vm_compute. reflexivity. Qed.
+Print Assumptions c03_ngap_roots_have_asn1.
+
+(* (7) refusal: a fixed-size BIT STRING whose BitLength is not the size never reaches the wire *)
 Theorem c03_fixed_bitstring_refused :
   forall s bs n ub, (0 < ub < 65536)%Z -> n <> Z.to_N ub ->
     (exists e, appendBitString s bs n false (Some ub) (Some ub) = Err e)
     \/ (exists p, appendBitString s bs n false (Some ub) (Some ub) = Panic p).
 Proof. exact fixed_bitstring_wrong_length_refused. Qed.
 Print Assumptions c03_fixed_bitstring_refused.
+
+(* refusal at the place of the violation (C03.2), one statement per kind named by the property *)
+Theorem c03_refusal_integer_out_of_range :
+  forall s z ext lb ub, (z < lb)%Z \/ (ext = false /\ (ub < z)%Z) -> exists e, appendInteger s z ext (Some lb) (Some ub) = Err e.
+Proof. exact integer_out_of_range_refused. Qed.
+Print Assumptions c03_refusal_integer_out_of_range.
+
+Theorem c03_refusal_enumerated_out_of_range :
+  forall s i ext u, (u < Z.of_N i)%Z -> i < 9223372036854775808 -> exists e, appendEnumerated s i ext (Some 0%Z) (Some u) = Err e.
+Proof. exact enumerated_out_of_range_refused. Qed.
+Print Assumptions c03_refusal_enumerated_out_of_range.
+
+Theorem c03_refusal_octet_string_too_long :
+  forall s bytes lb ub, (0 <= ub < 4611686018427387904)%Z -> Z.to_N ub < len bytes ->
+    exists e, appendOctetString s bytes false (Some lb) (Some ub) = Err e.
+Proof. exact octet_string_too_long_refused. Qed.
+Print Assumptions c03_refusal_octet_string_too_long.
+
+Theorem c03_refusal_octet_string_fixed_wrong_length :
+  forall s bytes ub, (0 < ub < 65536)%Z -> len bytes < Z.to_N ub -> exists e, appendOctetString s bytes false (Some ub) (Some ub) = Err e.
+Proof. exact octet_string_fixed_wrong_length_refused. Qed.
+Print Assumptions c03_refusal_octet_string_fixed_wrong_length.
+
+Theorem c03_refusal_bit_string_too_long :
+  forall s bytes n lb ub, (0 <= ub < 4611686018427387904)%Z -> Z.to_N ub < n ->
+    exists e, appendBitString s bytes n false (Some lb) (Some ub) = Err e.
+Proof. exact bit_string_too_long_refused. Qed.
+Print Assumptions c03_refusal_bit_string_too_long.
+
+Theorem c03_refusal_sequence_of_too_long :
+  forall rec e p l s lb ub,
+    p_sizeLB p = Some lb -> p_sizeUB p = Some ub -> p_sizeExt p = false -> (0 <= lb <= ub)%Z -> (ub < 65536)%Z ->
+    (ub < Z.of_nat (List.length l))%Z -> exists err, encSequenceOf rec e p l s = Err err.
+Proof. exact sequence_of_too_long_refused. Qed.
+Print Assumptions c03_refusal_sequence_of_too_long.
+
+Theorem c03_refusal_sequence_of_too_short :
+  forall rec e p l s lb ub,
+    p_sizeLB p = Some lb -> p_sizeUB p = Some ub -> p_sizeExt p = false -> (0 <= lb <= ub)%Z -> (ub < 65536)%Z ->
+    (Z.of_nat (List.length l) < lb)%Z -> exists err, encSequenceOf rec e p l s = Err err.
+Proof. exact sequence_of_too_short_refused. Qed.
+Print Assumptions c03_refusal_sequence_of_too_short.
+
+Theorem c03_refusal_nil_value : forall fuel e p s, exists err, makeField (S fuel) (TPtr e) p VNil s = Err err.
+Proof. exact nil_value_refused. Qed.
+Print Assumptions c03_refusal_nil_value.
+
+(* a nil pointer in a mandatory component of a SEQUENCE (the components before it well-typed: OPTIONAL ones are pointers) *)
+Theorem c03_refusal_nil_mandatory_component :
+  forall rec pf pv f post postv p s bl e0,
+    is_choice (pf ++ f :: post) = false -> Forall2 fld_typed pf pv -> p_optional (f_params f) = false -> f_ty f = TPtr e0 ->
+    List.length post = List.length postv -> repr s bl -> small (bl ++ [false]) ->
+    exists err, encStruct rec (pf ++ f :: post) p (pv ++ VNil :: postv) s = Err err.
+Proof. exact nil_mandatory_component_refused. Qed.
+Print Assumptions c03_refusal_nil_mandatory_component.
+
+(* CHOICE with Present = 0 or beyond the alternatives *)
+Theorem c03_refusal_unset_choice :
+  forall rec fs p present vr s bl,
+    is_choice fs = true -> List.length fs = S (List.length vr) -> (present = 0 \/ Z.of_nat (List.length fs) <= present)%Z ->
+    repr s bl -> small (bl ++ [false]) ->
+    exists err, encStruct rec fs p (VInt present :: vr) s = Err err.
+Proof. exact unset_choice_refused. Qed.
+Print Assumptions c03_refusal_unset_choice.
+
+(* open type whose alternative is not the one registered under the identifier's value *)
+Theorem c03_refusal_open_type_mismatch :
+  forall rec cfs p present cvr s a av refValue,
+    is_choice cfs = true -> p_valueExt p = false -> p_openType p = true -> p_refValue p = Some refValue ->
+    List.length cfs = S (List.length cvr) -> (0 < present < Z.of_nat (List.length cfs))%Z ->
+    nth_error cfs (Z.to_nat present) = Some a -> nth_error (VInt present :: cvr) (Z.to_nat present) = Some av ->
+    p_refValue (f_params a) <> Some refValue ->
+    exists err, encStruct rec cfs p (VInt present :: cvr) s = Err err.
+Proof. exact open_type_mismatch_refused. Qed.
+Print Assumptions c03_refusal_open_type_mismatch.
+
+(* deviation classes found while proving (6): excluded by [sup], no NGAP instance, each confirmed on the real code *)
+Theorem c03_ext_seqof_above_root_refuted :
+  marshal T_ext_seqof p_empty V_ext_seqof = Ok ([128; 130] ++ repeat 255 16 ++ [192])%list /\
+  spec_encode T_ext_seqof p_empty V_ext_seqof = SVBytes ([128; 128; 130] ++ repeat 255 16 ++ [192])%list /\
+  sup T_ext_seqof p_empty V_ext_seqof = false.
+Proof. exact ext_seqof_above_root_refuted. Qed.
+Print Assumptions c03_ext_seqof_above_root_refuted.
+
+Theorem c03_single_alternative_choice_refuted :
+  marshal T_choice1 p_empty V_choice1 = Ok [0; 5] /\ spec_encode T_choice1 p_empty V_choice1 = SVBytes [5] /\
+  sup T_choice1 p_empty V_choice1 = false.
+Proof. exact single_alternative_choice_refuted. Qed.
+Print Assumptions c03_single_alternative_choice_refuted.
+
+Theorem c03_open_type_empty_content_refuted :
+  marshal T_open_empty p_empty V_open_empty = Ok [7; 0] /\
+  spec_encode T_open_empty p_empty V_open_empty = SVBytes [7; 1; 0] /\
+  (exists e, unmarshal (dec_fuel T_open_empty) T_open_empty p_empty [7; 0] = Err e) /\
+  unmarshal (dec_fuel T_open_empty) T_open_empty p_empty [7; 1; 0] = Ok V_open_empty /\
+  sup T_open_empty p_empty V_open_empty = false.
+Proof. exact open_type_empty_content_refuted. Qed.
+Print Assumptions c03_open_type_empty_content_refuted.
 
 (* known deviation classes that remain (KNOWN FINDINGS C03:size-ub>=65536, C03:ext-below-root) and one class without
    an NGAP instance: concrete witnesses on the model, with the X.691 encoding next to them *)
@@ -134,3 +329,12 @@ Example c03_hypotheses_met :
   (2 <= 256 <= 65536) /\ (e_bitsOffset (mkest [128] 3) < 8) /\ (65536 <= 131071)%Z /\
   existsb (fun x => let '(tn, fn, _, _) := x in String.eqb tn "RepetitionPeriod" && String.eqb fn "Value") ngap_fields = true.
 Proof. repeat split; try (vm_compute; congruence). Qed.
+
+(* the hypotheses of c03_aper_encode_is_x691 hold for the NGSetupRequest above (so the theorem applies to it) *)
+Example c03_structural_hypotheses_met :
+  sup (root_ty "NGAPPDU") (root_penc "NGAPPDU") ex_ngsetup = true /\
+  match tags_to_asn1 (root_ty "NGAPPDU") (root_penc "NGAPPDU"), abs (root_ty "NGAPPDU") (root_penc "NGAPPDU") ex_ngsetup with
+  | Some at', Some av => match x691 at' av 0 with XOk b => N.of_nat (List.length b) <? LIM | _ => false end
+  | _, _ => false
+  end = true.
+Proof. split; vm_compute; reflexivity. Qed.
